@@ -94,7 +94,7 @@ BOUNDS = {
              'strings of length 0..3, 16.8M, plus out-of-byte-range items); lengths 5..10 likewise (covers over-long '
              'fixed-length messages and sysex); list and tuple containers; from_hex over all byte values for n<=4; '
              'ill-typed items: 12-value menu at every position, n<=4',
-    'thorough': 'lengths 0..24 fully symbolic; from_hex n<=6; ill-typed n<=5',
+    'thorough': 'lengths 0..64 fully symbolic; from_hex n<=8; ill-typed n<=6',
 }
 OUTSIDE = 'sequences longer than the stated length; non-integer items beyond the menu; bytes objects are covered ' \
           'through tuple/list of ints 0..255 (same code path: indexing and slicing of a sequence)'
@@ -107,13 +107,13 @@ ASSUMPTIONS = [
 
 def JOBS(tier):
     jobs = []
-    top = 10 if tier == 'quick' else 24
+    top = 10 if tier == 'quick' else 64
     for n in range(0, top + 1):
         jobs.append((from_bytes, {'n': n}, {'cost': n}))
     for n in range(0, 5):
         jobs.append((from_bytes, {'n': n, 'container': 'tuple'}, {}))
-    for n in range(0, (4 if tier == 'quick' else 6) + 1):
-        jobs.append((from_hex, {'n': n}, {}))
-    for n in range(1, (4 if tier == 'quick' else 5) + 1):
-        jobs.append((from_bytes_illtyped, {'n': n}, {}))
+    for n in range(0, (4 if tier == 'quick' else 8) + 1):
+        jobs.append((from_hex, {'n': n}, {'cost': 3 ** n}))
+    for n in range(1, (4 if tier == 'quick' else 6) + 1):
+        jobs.append((from_bytes_illtyped, {'n': n}, {'cost': 4 ** n}))
     return jobs
